@@ -3,7 +3,7 @@
 From Coq Require Import List NArith ZArith Bool Sorting.Permutation.
 Import ListNotations.
 Require Import Verif.Lib.Wire Verif.Gen.Facts_C03 Verif.Model.C03 Verif.Gen.Facts_C05 Verif.Model.C05.
-Require Import Verif.Proofs.C05 Verif.Proofs.C05_cfg.
+Require Import Verif.Proofs.C05 Verif.Proofs.C05_cfg Verif.Proofs.C05_seq Verif.Proofs.C05_judge.
 Require Verif.Gen.Facts_C18 Verif.Model.C18.
 Local Close Scope N_scope.
 Local Open Scope nat_scope.
@@ -20,9 +20,9 @@ Theorem C05_secured_outermost :
 Proof. exact secured_outermost. Qed.
 Print Assumptions C05_secured_outermost.
 
-(* every derived view: predicates, then the permission check, then the wrapper view, then the decorator *)
+(* every derived view: predicates, then the permission check, then the CSRF check, then the wrapper view, then the decorator *)
 Theorem C05_wrappers_shape : forall d,
-  wrappers d = pred_part d ++ sec_part d ++ ow_part d ++ deco_part d.
+  wrappers d = pred_part d ++ sec_part d ++ csrf_part d ++ ow_part d ++ deco_part d.
 Proof. exact wrappers_shape. Qed.
 Print Assumptions C05_wrappers_shape.
 
@@ -151,7 +151,8 @@ Theorem C05_commit_table : forall s batch rt d,
   In (rt, d) (cs_D (commit s batch)) ->
   In (rt, d) (cs_D s) \/
   exists st eo o b, In st batch /\ directive (cs_rs s) st = Some (AView o b) /\ rt = rtag (o_tag o) eo /\
-                    d_perm d = secured_permission (cs_rs (commit s batch)) eo (o_perm o) /\ d_body d = b.
+                    d_perm d = secured_permission (cs_rs (commit s batch)) eo (o_perm o) /\ d_body d = b /\
+                    var_ok eo o.
 Proof. exact commit_table. Qed.
 Print Assumptions C05_commit_table.
 
@@ -190,3 +191,137 @@ Theorem C05_mediation_program : forall irq ier iw batch tb q i e rt c d,
               exists j, j < i /\ nth_error (fst (run_request s tb q)) j = Some (Permits p c true).
 Proof. exact mediation_program. Qed.
 Print Assumptions C05_mediation_program.
+
+(* ---- several commits *)
+Theorem C05_configure_table : forall batches s0 rt d,
+  In (rt, d) (cs_D (fold_left commit batches s0)) ->
+  In (rt, d) (cs_D s0) \/
+  exists pre batch post st eo o b,
+    batches = pre ++ batch :: post /\ In st batch /\
+    directive (cs_rs (fold_left commit pre s0)) st = Some (AView o b) /\ rt = rtag (o_tag o) eo /\
+    d_perm d = secured_permission (cs_rs (commit (fold_left commit pre s0) batch)) eo (o_perm o) /\ d_body d = b /\
+    var_ok eo o.
+Proof. exact configure_table. Qed.
+Print Assumptions C05_configure_table.
+
+(* mediation for ANY sequence of commits: a Body/Deco event names a statement of some commit and its variant; if, in the
+   registry state at the end of THAT commit, a policy is in force and the statement's effective permission is p, then
+   Permits p c true precedes the event *)
+Theorem C05_mediation_sequence : forall irq ier iw batches tb q i e rt c d,
+  let s0 := init_state irq ier iw in
+  let s := fold_left commit batches s0 in
+  nth_error (fst (run_request s tb q)) i = Some e -> (e = Body rt c \/ e = Deco rt c) ->
+  assocN rt (cs_D s) = Some d ->
+  In (rt, d) (cs_D s0) \/
+  exists pre batch post st eo o b,
+    batches = pre ++ batch :: post /\ In st batch /\
+    directive (cs_rs (fold_left commit pre s0)) st = Some (AView o b) /\ rt = rtag (o_tag o) eo /\
+    let sk := commit (fold_left commit pre s0) batch in
+    forall p, rs_policy (cs_rs sk) = true ->
+              match o_perm o with
+              | Some p' => strip_npr (Some p')
+              | None => if eo then None else strip_npr (rs_defperm (cs_rs sk))
+              end = Some p ->
+              exists j, j < i /\ nth_error (fst (run_request s tb q)) j = Some (Permits p c true).
+Proof. exact mediation_sequence. Qed.
+Print Assumptions C05_mediation_sequence.
+
+(* later commits that hold only view statements see the policy / default permission of the earlier ones *)
+Theorem C05_later_commits_stable : forall batches s,
+  forallb (fun b => forallb (view_only_stmt (cs_rs s)) b) batches = true ->
+  cs_rs (fold_left commit batches s) = cs_rs s.
+Proof. exact later_commits_stable. Qed.
+Print Assumptions C05_later_commits_stable.
+
+(* ---- the judge run on the implementation's log and the theorems on the model are the same statement:
+   the link between the table and the declarative [protected], and the judge's clauses on model traces *)
+Theorem C05_table_link : forall irq ier iw prog rt d c p,
+  prog_ok prog ->
+  let s := commit (init_state irq ier iw) prog in
+  In (rt, d) (cs_D s) ->
+  variant_ev prog (Body rt c) = true ->
+  protected prog (stag rt) c = Some p -> d_perm d = Some p.
+Proof. exact table_link. Qed.
+Print Assumptions C05_table_link.
+
+(* judge_sound, clause J1 (mediation): for every one-commit program within the stated hypotheses (distinct small tags,
+   policy statements kept, one default permission), every decision table and request, the executable clause evaluated on
+   the observable projection of the model's trace is true -- provided the trace passes the executable variant check,
+   which the run evaluates on every model trace *)
+Theorem C05_judge_j1_sound : forall irq ier iw prog tb q,
+  prog_ok prog ->
+  let s := commit (init_state irq ier iw) prog in
+  let tr := fst (run_request s tb q) in
+  variant_okb prog tr = true -> j1 prog [] (proj_trace tr) = true.
+Proof. exact judge_j1_sound. Qed.
+Print Assumptions C05_judge_j1_sound.
+
+(* judge_sound, clause J2 (refusal): for EVERY registry state, table and request the clause yields 0 (403 handling follows)
+   or 4 (refusal while an exception view was being rendered: the open finding), never 2 *)
+Theorem C05_judge_j2_sound : forall R D tb q,
+  let tr := fst (router_call R D tb q) in
+  let fin := snd (router_call R D tb q) in
+  j2 (proj_final fin) false false (proj_trace tr) = 0%N \/ j2 (proj_final fin) false false (proj_trace tr) = 4%N.
+Proof. exact judge_j2_sound. Qed.
+Print Assumptions C05_judge_j2_sound.
+
+(* ---- secure=False / __call_permissive__ / __permitted__ are modelled; the router never uses them *)
+Theorem C05_router_uses_secure : forall R D tb q fuel cls req_sro name c,
+  call_view5 R D tb q fuel cls req_sro name c = call_view_s R D tb q true fuel cls req_sro name c.
+Proof. exact router_uses_secure. Qed.
+Print Assumptions C05_router_uses_secure.
+
+Theorem C05_secure_vs_permissive : forall D tb q lookup v c d p,
+  assocN (r_tag v) D = Some d -> d_perm d = Some p ->
+  qualifies (q_base q) (d_reg d) = true -> granted tb p c = true ->
+  call_reg D tb q lookup v c =
+  (Permits p c true :: fst (call_reg_permissive D tb q lookup v c), snd (call_reg_permissive D tb q lookup v c)).
+Proof. exact secure_vs_permissive. Qed.
+Print Assumptions C05_secure_vs_permissive.
+
+Theorem C05_permissive_unsecured : forall D tb q lookup v c d,
+  assocN (r_tag v) D = Some d -> d_perm d = None ->
+  call_reg_permissive D tb q lookup v c = call_reg D tb q lookup v c.
+Proof. exact permissive_unsecured. Qed.
+Print Assumptions C05_permissive_unsecured.
+
+Theorem C05_permitted_is_the_check : forall D tb v c d p,
+  assocN (r_tag v) D = Some d -> d_perm d = Some p ->
+  permitted_reg D tb v c = ([Permits p c (granted tb p c)], granted tb p c).
+Proof. exact permitted_is_the_check. Qed.
+Print Assumptions C05_permitted_is_the_check.
+
+(* the repaired _call_view (regenerated fact permissive_checks_predicates): with secure=False a single secured view whose
+   predicates fail is a PredicateMismatch, as it is with secure=True *)
+Theorem C05_permissive_honours_predicates : forall D tb q lookup v c d p,
+  assocN (r_tag v) D = Some d -> d_perm d = Some p -> qualifies (q_base q) (d_reg d) = false ->
+  call_component_s D tb q false lookup (CView v) c = ([], Raise EPredMismatch).
+Proof. exact permissive_honours_predicates. Qed.
+Print Assumptions C05_permissive_honours_predicates.
+
+(* so, for a secured single view under a granting policy, secure=False differs from secure=True by the check alone *)
+Theorem C05_secure_vs_permissive_component : forall D tb q lookup v c d p,
+  assocN (r_tag v) D = Some d -> d_perm d = Some p -> granted tb p c = true ->
+  let '(trp, op) := call_component_s D tb q false lookup (CView v) c in
+  call_component5 D tb q lookup (CView v) c =
+  if qualifies (q_base q) (d_reg d) then (Permits p c true :: trp, op) else (trp, op).
+Proof. exact secure_vs_permissive_component. Qed.
+Print Assumptions C05_secure_vs_permissive_component.
+
+(* ---- csrf_view enabled together with a permission (require_csrf=True) *)
+Theorem C05_csrf_between_secured_and_owrapped :
+  exists pre mid post, deriver_names = pre ++ nm_secured_view :: mid ++ nm_csrf_view :: nm_owrapped_view :: post /\ mid = [].
+Proof. exact csrf_between_secured_and_owrapped. Qed.
+Print Assumptions C05_csrf_between_secured_and_owrapped.
+
+Theorem C05_csrf_after_permission : forall D tb q lookup v c d p,
+  assocN (r_tag v) D = Some d -> d_perm d = Some p -> d_csrf d = true ->
+  qualifies (q_base q) (d_reg d) = true ->
+  call_reg D tb q lookup v c =
+  if granted tb p c
+  then if q_csrf_ok q
+       then let '(tr, o) := run_ws tb q lookup (ow_part d ++ deco_part d) d (r_tag v) c in (Permits p c true :: tr, o)
+       else ([Permits p c true], Raise ECsrf)
+  else ([Permits p c false], Raise EForbidden).
+Proof. exact csrf_after_permission. Qed.
+Print Assumptions C05_csrf_after_permission.
